@@ -55,7 +55,31 @@ def declare(chk):
     return rid
 
 
+def ctor_aliasing(chk):
+    """R<nn>.12: constructing an object does not modify the caller's arrays."""
+    from ..effects import stored_param_aliases, inplace_attr_writes, ctor_closure
+    rid = f"R{chk.pid[1:]}.12"
+    _, classes = SCOPES[chk.pid]
+    if not classes:
+        return
+    chk.rule(rid, "construction leaves the caller's data alone: no constructor (or helper it calls) operates in place on an attribute that is "
+                  "a view of a constructor argument (np.asarray / the argument itself do not copy)", len(classes))
+    if not chk.want(rid):
+        return
+    for c in classes:
+        rel, cls = c[0], c[1]
+        mod = chk.repo.module(rel)
+        al = stored_param_aliases(mod, cls)
+        during = ctor_closure(mod, cls)
+        hits = [(m, a, how, node) for m, a, how, node in inplace_attr_writes(mod, cls, set(al)) if m in during]
+        chk.ob(rid, rel, f"{cls}.__init__", f"no attribute bound to a view of a constructor argument ({sorted(al) or 'none'}) is modified in place during construction",
+               not hits, node=hits[0][3] if hits else None, fingerprint=f"ctor-aliasing:{cls}",
+               expected="an own copy (np.array(x) / x.copy()) before any in-place operation",
+               found=[f"{cls}.{m}: {how}; self.{a} is a view of the argument '{al[a][0]}'" for m, a, how, _ in hits][:3])
+
+
 def run(chk):
+    ctor_aliasing(chk)
     rid = declare(chk)
     if chk.want(rid):
         mods, classes = SCOPES[chk.pid]
